@@ -1,7 +1,71 @@
-(* commands for the cps model *)
+(* commands for the cps model (coq/Model/CpsModel.v) *)
 open Bbm_model
 open Bbm_util
 
+let goal_of = function
+  | "halt" -> CpsHalt | "blank" -> CpsBlank | "spin" -> CpsSpinout
+  | _ -> failwith "bad goal"
+
+let ob = function Panic -> raise Model_panic | Ok b -> b2s b
+
+(* processing orders (the model's [order] parameter: list of seen configs,
+   newest first -> list in pop order).  "old" is what the differential test uses;
+   the others exist to probe order (in)dependence. *)
+let shuffle seed l =
+  let st = Random.State.make [| seed; List.length l |] in
+  let a = Array.of_list l in
+  for i = Array.length a - 1 downto 1 do
+    let j = Random.State.int st (i + 1) in
+    let t = a.(i) in a.(i) <- a.(j); a.(j) <- t
+  done;
+  Array.to_list a
+
+let order_of (name : string) : cconfig list -> cconfig list =
+  match name with
+  | "old" -> order_oldest_first
+  | "new" -> order_newest_first
+  | "sort" -> List.sort (fun a b -> compare (config_key a) (config_key b))
+  | "rsort" -> List.sort (fun a b -> compare (config_key b) (config_key a))
+  | _ when String.length name > 4 && String.sub name 0 4 = "shuf" ->
+    shuffle (int_of_string (String.sub name 4 (String.length name - 4)))
+  | _ -> failwith "bad order"
+
+let cmd_cps order goal prog rad =
+  let p = comp_of_text prog in
+  let r = n_of_string rad in
+  ob (match goal with
+      | "halt" -> cps_cant_halt order p r
+      | "blank" -> cps_cant_blank order p r
+      | "spin" -> cps_cant_spin_out order p r
+      | _ -> failwith "bad goal")
+
+let cmd_cps1 order goal prog rad =
+  ob (cps_cant_reach order (comp_of_text prog) (n_of_string rad) (goal_of goal))
+
+(* one pass at exactly radius rad, with statistics:
+   answer, number of sweeps started, final |seen| *)
+let cmd_cpsstat order goal prog rad =
+  let p = comp_of_text prog in
+  let r = n_of_string rad in
+  let g = goal_of goal in
+  match configs_init r with
+  | Panic -> raise Model_panic
+  | Ok c0 ->
+    let fuel = while_fuel p r in
+    let rec go c i =
+      if i >= int_of_n mAX_LOOPS then ("0", i, c)
+      else match cps_loop_body order p g fuel c with
+        | Inl c' -> go c' (i + 1)
+        | Inr Panic -> ("PANIC", i + 1, c)
+        | Inr (Ok b) -> (b2s b, i + 1, c) in
+    let (a, loops, c) = go c0 0 in
+    Printf.sprintf "%s loops=%d seen=%s" a loops (string_of_n c.c_seen.set_len)
+
 let dispatch (fields : string list) : string option =
   match fields with
+  | ["cps"; goal; prog; rad] -> Some (cmd_cps order_oldest_first goal prog rad)
+  | ["cps1"; goal; prog; rad] -> Some (cmd_cps1 order_oldest_first goal prog rad)
+  | ["cpso"; ord; goal; prog; rad] -> Some (cmd_cps (order_of ord) goal prog rad)
+  | ["cps1o"; ord; goal; prog; rad] -> Some (cmd_cps1 (order_of ord) goal prog rad)
+  | ["cpsstat"; ord; goal; prog; rad] -> Some (cmd_cpsstat (order_of ord) goal prog rad)
   | _ -> None
